@@ -673,12 +673,11 @@ const cssTail = "x;y:z}d{e:f}"
 // newParser builds the parser under test over a caller-owned buffer: half of the inputs are a sub-slice of a larger
 // buffer that continues with style sheet text (gen.Embedded); done() gives the buffer back and checks it
 func newParser(t fataler, src []byte, inline bool) (p *css.Parser, done func()) {
-	in, whole := gen.Embedded(src, cssTail)
-	input := parse.NewInputBytes(in)
+	input, how, check := gen.Supply(src, cssTail)
 	return css.NewParser(input, inline), func() {
 		input.Restore()
-		if ok, rest := gen.CheckEmbedded(in, whole, cssTail, true); !ok || !bytes.Equal(in, src) {
-			t.Fatalf("parsing %q changed the caller's buffer: %q + %q", src, in, rest)
+		if ok, rest := check(true); !ok {
+			t.Fatalf("parsing %q (%s) changed the caller's buffer: %q", src, how, rest)
 		}
 	}
 }
